@@ -18,6 +18,8 @@ import DarkluaModel.Rules.UnusedVariableHeap
 import DarkluaModel.Rules.UnusedVariableHeapV
 import DarkluaModel.Rules.UnusedVariableHeapV2
 import DarkluaModel.Rules.UnusedVariableHeapV3
+import DarkluaModel.Rules.UnusedVariableHeapV4
+import DarkluaModel.Rules.UnusedVariableHeapV5
 import DarkluaModel.Rules.NilDeclarationHeap
 import DarkluaModel.Rules.NilDeclarationHeap2
 import DarkluaModel.Rules.AllocCondU
@@ -116,6 +118,8 @@ def handle (op : String) (args : List String) : String :=
       else if (Rules.UnusedVariable.GuardedV.applyG driverApi b).toSexp.toString == out then "in (stage 4: cells, tables, closures)"
       else if (Rules.UnusedVariable.GuardedV2.applyG driverApi b).toSexp.toString == out then "in (stage 4 + unused call-valued declarations)"
       else if (Rules.UnusedVariable.GuardedV3.applyG driverApi b).toSexp.toString == out then "in (stage 4 + unused effectful single values)"
+      else if (Rules.UnusedVariable.GuardedV4.applyG driverApi b).toSexp.toString == out then "in (stage 4 + unused declarations with several call / allocation-only values)"
+      else if (Rules.UnusedVariable.GuardedV5.applyG driverApi b).toSexp.toString == out then "in (stage 4 + unused declarations with several values, kept non-call values included)"
       else "out"
     | none => "bad-request"
   | "c08guard", some [name, block] =>
